@@ -19,6 +19,7 @@ import (
 	bhost "github.com/libp2p/go-libp2p/p2p/host/basic"
 	"github.com/libp2p/go-libp2p/p2p/host/eventbus"
 	"github.com/libp2p/go-libp2p/p2p/host/peerstore/pstoremem"
+	rcmgr "github.com/libp2p/go-libp2p/p2p/host/resource-manager"
 	"github.com/libp2p/go-libp2p/p2p/net/swarm"
 	"github.com/libp2p/go-libp2p/p2p/net/upgrader"
 	ma "github.com/multiformats/go-multiaddr"
@@ -51,6 +52,7 @@ type lisResult struct {
 	ResidueD                       []string
 	OpenL                          map[string]int
 	TimedOut                       int
+	Hung                           bool
 	Bubble                         run.BubbleResult
 }
 
@@ -155,7 +157,7 @@ func (s *state) runListener(c *lisCase) (res lisResult) {
 			cc.Close()
 		}
 		mu.Unlock()
-		wg.Wait()
+		res.Hung = !waitTimeout(&wg, 15*time.Minute)
 		synctest.Wait()
 		for _, rc := range raws {
 			if !rc.IsClosed() {
@@ -201,6 +203,9 @@ func (s *state) listenerCases() {
 		detail := map[string]any{"case": c, "result": res}
 		if s.r.BubbleFailed(res.Bubble, "listener:goroutine-left-running", c.ID, "goroutines of the listener or its connections never finished", map[string]any{"case": c}) {
 			return
+		}
+		if res.Hung {
+			s.r.Violation("listener:connection-never-closed", c.ID, "connections were still alive 15 virtual minutes after the listener was closed", detail)
 		}
 		if len(res.ResidueL) > 0 || len(res.ResidueD) > 0 {
 			s.r.Violation("listener:resource-scope-not-released", c.ID, fmt.Sprintf("resource managers not back to zero: listener %v dialer %v", res.ResidueL, res.ResidueD), detail)
@@ -252,17 +257,18 @@ type swCase struct {
 }
 
 type swResult struct {
-	DialErr   string
-	StreamErr string
-	Echoed    bool
-	Fired     bool
-	Residue   [2][]string
-	RawOpen   int
-	Conns     [2]int
-	Listen    [2]int
-	Calls     [2]map[string]int
-	Ops       [2][2]int // [side][reads, writes] of the first raw conn
-	Bubble    run.BubbleResult
+	DialErr    string
+	StreamErr  string
+	Echoed     bool
+	Fired      bool
+	Residue    [2][]string
+	MidResidue [2]string
+	RawOpen    int
+	Conns      [2]int
+	Listen     [2]int
+	Calls      [2]map[string]int
+	Ops        [2][2]int // [side][reads, writes] of the first raw conn
+	Bubble     run.BubbleResult
 }
 
 type swNode struct {
@@ -458,6 +464,23 @@ func (s *state) runSwarm(c *swCase) (res swResult) {
 			res.Fired = fired || first[0].FaultsFired()+first[1].FaultsFired() > 0
 		}
 		fmu.Unlock()
+		// statement: "every resource scope that was opened for it is closed so that system and transient
+		// usage return to their previous values" - BEFORE any Close: at quiescence the system scope must
+		// hold exactly the connections the swarm still lists and no stream at all.
+		// in-flight halves of a failed attempt end with their own timeouts (accept timeout 15 s,
+		// negotiation 60 s): give them that virtual time first
+		time.Sleep(3 * time.Minute)
+		synctest.Wait()
+		for i, n := range []*swNode{nd, nl} {
+			if st, ok := rcmgr.VerifDump(n.rm.(*rcwrap.Manager).Unwrap()); ok {
+				sys, tr := st.System.Stat, st.Transient.Stat
+				conns := len(n.sw.Conns())
+				if sys.NumStreamsInbound+sys.NumStreamsOutbound != 0 || sys.NumConnsInbound+sys.NumConnsOutbound != conns || sys.NumFD != conns ||
+					tr != (network.ScopeStat{}) {
+					res.MidResidue[i] = fmt.Sprintf("open conns=%d system=%+v transient=%+v", conns, sys, tr)
+				}
+			}
+		}
 		// statement: "After a swarm or host has been closed, usage in every scope is zero and all of
 		// its listeners, connections and streams are gone."
 		if c.Host {
@@ -504,6 +527,10 @@ func (s *state) judgeSwarm(c *swCase, res *swResult) bool {
 	}
 	ok := true
 	for i, side := range []string{"dialer", "listener"} {
+		if res.MidResidue[i] != "" {
+			s.r.Violation("swarm:usage-not-back-after-attempt/"+side, c.ID, fmt.Sprintf("%s at quiescence after the attempt, before Close: %s", side, res.MidResidue[i]), detail)
+			ok = false
+		}
 		if len(res.Residue[i]) > 0 {
 			s.r.Violation("swarm:usage-not-zero-after-close/"+side, c.ID, fmt.Sprintf("%s's resource manager after Close: %v", side, res.Residue[i]), detail)
 			ok = false
